@@ -1168,6 +1168,11 @@ func (app *App) disableSemiSyncOnSlaves(becomeInactive, becomeDataLag []string) 
 }
 
 func (app *App) enableSemiSyncOnSlave(host string, slaveState, masterState *nodestate.NodeState) error {
+	if masterState == nil || masterState.MasterState == nil || slaveState == nil || slaveState.SlaveState == nil {
+		err := fmt.Errorf("gtid state of %s or its master is unknown", host)
+		app.logger.Error().Err(err).Msgf("failed to enable semi_sync_slave on %s", host)
+		return err
+	}
 	node := app.cluster.Get(host)
 	err := node.SemiSyncSetSlave()
 	if err != nil {
